@@ -204,7 +204,7 @@ def check_source(ctx):
                 ts = f.get("timestamp")
                 ctx.check(ts is not None and ts.k == "arg", inst, "PIN", b.path, "the record's timestamp is the constructor's timestamp parameter", b.where(nd.id),
                           {"timestamp": ts.show()[:60] if ts is not None else None})
-    ctx.check(n_lit == 3, inst, "anchor", "-", "Record literals in record.rs (expected 3, found %d)" % n_lit, None)
+    ctx.check(n_lit >= 2, inst, "anchor", "-", "Record literals in record.rs (>= 2: a resident and a deferred constructor; found %d)" % n_lit, None)
     # atomic ops / insert_if_absent take their automatic timestamps from get_timestamp
     for fn in ("FeoxStore::insert_if_absent", "FeoxStore::atomic_increment_with_timestamp_and_ttl"):
         b = ctx.fn(fn, inst)
